@@ -70,6 +70,22 @@ func run(c *core.Ctx, idx int) {
 		g = gen.ManyMembers(r, k, o.Coord)
 		c.Count("members.many")
 	}
+	switch t := g.(type) {
+	case geom.Polygon:
+		for _, m := range t {
+			gen.CloseWithOtherZero(r, m, 0.1)
+		}
+	case geom.MultiPolygon:
+		for _, pg := range t {
+			for _, m := range pg {
+				gen.CloseWithOtherZero(r, m, 0.1)
+			}
+		}
+	case geom.MultiLineString:
+		for _, m := range t {
+			gen.CloseWithOtherZero(r, m, 0.05)
+		}
+	}
 	name := fmt.Sprintf("%T", g)[5:]
 	c.Count("type." + name)
 	detail := map[string]interface{}{"geometry": gen.Dump(g)}
